@@ -428,6 +428,9 @@ def compare_success(spec, model, impl):
     if impl["timed_out"]:
         problems.append(("deadlock-or-hang", "the run did not terminate within the time limit"))
         return problems
+    if impl["rc"] != 0 and "all goroutines are asleep - deadlock" in impl["stderr"]:
+        problems.append(("deadlock", "the Go runtime reports a deadlock (all goroutines are asleep): Run never returns"))
+        return problems
     if impl["rc"] != 0 or not impl["returned"]:
         problems.append(("unexpected-failure", "exit status %s, returned=%s: %s" % (impl["rc"], impl["returned"], impl["stderr"][-300:])))
         return problems
@@ -531,19 +534,28 @@ def run_many(fn, args, workers=None):
 
 # ------------------------------------------------------------------ a standard success-path case
 
-def success_case(sp, yield_seed=None, timeout=60, gomaxprocs=None, extra_check=None):
-    """run one spec on model and implementation; returns dict with problems (list of (kind, text))"""
-    model = run_model(sp.text())
+def success_case(sp, yield_seed=None, timeout=60, gomaxprocs=None, extra_check=None, alts=()):
+    """run one spec on model and implementation; returns dict with problems (list of (kind, text)).
+    alts: specs of the same workflow with another (equally legal) arrival order at a fan-in port; the implementation is
+    compared with each and has to agree with one of them."""
     sc = Scratch()
     try:
         sc.plant(sp.files)
         impl = run_impl(sc, sp, yield_seed=yield_seed, timeout=timeout, gomaxprocs=gomaxprocs)
-        if model["status"] != "done" or model["failed"]:
-            problems = [("model-predicts-failure", "generator produced a workflow the model does not complete: %s" % model["status"])]
-        else:
-            problems = compare_success(sp, model, impl)
-        if extra_check:
-            problems += extra_check(sp, model, impl, sc)
+        best = None
+        for s_ in [sp] + list(alts):
+            model = run_model(s_.text())
+            if model["status"] != "done" or model["failed"]:
+                problems = [("model-predicts-failure", "generator produced a workflow the model does not complete: %s" % model["status"])]
+            else:
+                problems = compare_success(s_, model, impl)
+            if extra_check:
+                problems += extra_check(s_, model, impl, sc)
+            if best is None or len(problems) < len(best[0]):
+                best = (problems, model)
+            if not problems:
+                break
+        problems, model = best
         return {"spec": sp.text(), "bufsize": sp.bufsize, "problems": problems, "ntasks": sum(1 for t in model["tasks"] if t["status"] == "run"),
                 "nskip": sum(1 for t in model["tasks"] if t["status"] == "skip"), "rc": impl["rc"], "stderr": impl["stderr"][-400:], "yield": yield_seed,
                 "wall": impl["wall"]}
